@@ -269,3 +269,32 @@ pub fn with_slack<T: Clone>(v: &[T], mode: usize) -> Vec<T> {
 pub fn pw_with_slack<T: Clone>(f: &Piecewise<T>, mode: usize) -> Piecewise<T> {
     Piecewise { segments: with_slack(&f.segments, mode) }
 }
+
+/// A copy of a slice placed at an address that is 8 (mod 16) - where a slice embedded in another object, or on the stack, may
+/// sit, and where a `Vec`'s buffer (16-aligned by the allocator) and its sub-slices of 16-byte elements never do.
+/// (For element types of alignment <= 8 whose size is a multiple of 8.)
+pub struct Placed<T: Copy> {
+    buf: Vec<u64>,
+    off: usize,
+    len: usize,
+    _p: std::marker::PhantomData<T>,
+}
+impl<T: Copy> Placed<T> {
+    pub fn new(v: &[T]) -> Self {
+        assert!(std::mem::align_of::<T>() <= 8 && std::mem::size_of::<T>() % 8 == 0);
+        let words = v.len() * std::mem::size_of::<T>() / 8;
+        let buf = vec![0u64; words + 3];
+        let off = if (buf.as_ptr() as usize) % 16 == 8 { 0 } else { 1 };
+        let mut p = Placed { buf, off, len: v.len(), _p: std::marker::PhantomData };
+        let dst = unsafe { p.buf.as_mut_ptr().add(p.off) } as *mut T;
+        for (i, x) in v.iter().enumerate() {
+            unsafe { dst.add(i).write(*x) };
+        }
+        p
+    }
+    pub fn slice(&self) -> &[T] {
+        let src = unsafe { self.buf.as_ptr().add(self.off) } as *const T;
+        debug_assert!(self.len == 0 || (src as usize) % 16 == 8);
+        unsafe { std::slice::from_raw_parts(src, self.len) }
+    }
+}
